@@ -588,7 +588,14 @@ func (a *Application) startProxyGoroutine(
 		// headersReady is never closed and the main goroutine blocks forever.
 		// Ensure it is always signalled before closing the pipe.
 		streamRecorder.ensureHeadersReady()
-		pipeWriter.Close() // Signal end of stream
+		// Signal end of stream. A failed attempt (backend torn down mid-body, read timeout) must
+		// not look like a clean end to the translator, or it would finish the message as if the
+		// backend had completed it.
+		if err != nil {
+			pipeWriter.CloseWithError(err)
+		} else {
+			pipeWriter.Close()
+		}
 		proxyErrChan <- err
 	}()
 	return proxyErrChan
